@@ -10,7 +10,11 @@
 //!   ares <expr>                     `AsyncDerived::new` over signals (before `mount`): every fetch stays pending until
 //!   resolve <rid>                   … this op completes the resource's LATEST fetch with the value its expression had when the
 //!                                   fetch started.  Views with `sus` / `tra` ("S views"): every op runs the executor to idle and prints
-//!                                   `sdom=<the DOM without ids and counters>`; `poll` is not an op of theirs
+//!                                   `sdom=<the DOM without ids and counters>` (`sdom=?` while a live `lw` leaf selects a closed gate: what
+//!                                   it shows then depends on the polling order)
+//!   open <g>                        opens gate `g` of the `lw` leaves (and runs to idle)
+//!   pset <id> <v> | presolve <rid> | popen <g> | poll <i>   (S views) the same without running the executor — only the resources' own
+//!                                   tasks run —, and one poll of the i-th ready task of the view; these print `~`; `idle` observes
 //!   setl <sid> <v>                  write every live component-local signal created by `sc <sid> s ..`
 //!                                   (through the handles the harness keeps; disposed ones are skipped)
 //! <expr> prefix tokens: L<n> | R<id> | add e e | mulc <k> e | ite e e e
@@ -33,9 +37,13 @@
 //!   sus <view> | tra <view> `<Suspense fallback="wait">` / `<Transition fallback="wait">` over the view
 //!   aw <rid>                `move || Suspend::new(async move { resource.await.to_string() })`: reads the resource defined by the
 //!                           <rid>-th `ares` line (only below a `sus` / `tra`)
+//!   lw <expr>               `move || { let g = gates[v mod 4].clone(); Suspend::new(async move { g.wait().await.to_string() }) }`: a `Suspend`
+//!                           over a plain future picked by a signal; gate `g` resolves to `g` once `open <g>` / `popen <g>` opened it
 //!   susp <expr> <view>      `<Suspense fallback="wait">` over an `AsyncDerived` of the expression (resolves after one more poll), children `(value, view)`   (implementation only)
 //!   errb <expr> <view>      `<ErrorBoundary>` over `move || if e != 0 { Err } else { Ok(view) }` (implementation only)
 //! <attr>: as <name> <hex> | ad <name> <expr> | ac <name> <expr> | ay <name> <expr>
+//!   `ad`: `name=move || if v == 0 { None } else { Some(v.to_string()) }`; `ac`: `class:name=move || v != 0`;
+//!   `ay`: `style:name=move || if v == 0 { None } else { Some(format!("{v}px")) }` (optional values: absent at 0)
 pub mod gen;
 
 use std::collections::BTreeSet;
@@ -93,6 +101,8 @@ pub enum ViewD {
     Tra(Box<ViewD>),
     /// a `Suspend` leaf over the resource
     Aw(usize),
+    /// a `Suspend` leaf over the gate the expression selects
+    Lw(Expr),
     Susp(Expr, Box<ViewD>),
     Errb(Expr, Box<ViewD>),
 }
@@ -255,6 +265,7 @@ pub fn parse_view(t: &mut Toks) -> Option<ViewD> {
         "sus" => ViewD::Sus(Box::new(parse_view(t)?)),
         "tra" => ViewD::Tra(Box::new(parse_view(t)?)),
         "aw" => ViewD::Aw(t.next()?.parse().ok()?),
+        "lw" => ViewD::Lw(parse_expr(t)?),
         "susp" => ViewD::Susp(parse_expr(t)?, Box::new(parse_view(t)?)),
         "errb" => ViewD::Errb(parse_expr(t)?, Box::new(parse_view(t)?)),
         _ => return None,
@@ -298,6 +309,7 @@ pub fn show_view(v: &ViewD) -> String {
         ViewD::Sus(k) => format!("sus {}", show_view(k)),
         ViewD::Tra(k) => format!("tra {}", show_view(k)),
         ViewD::Aw(r) => format!("aw {r}"),
+        ViewD::Lw(e) => format!("lw {}", show_expr(e)),
         ViewD::Susp(e, a) => format!("susp {} {}", show_expr(e), show_view(a)),
         ViewD::Errb(e, a) => format!("errb {} {}", show_expr(e), show_view(a)),
     }
@@ -411,7 +423,7 @@ fn struct_guards(defs: &[Def], env: &[i64], v: &ViewD, out: &mut Vec<Guard>) {
         ViewD::For(sel, _) => out.push(Guard::Reads(reads_of(defs, sel))),
         // views with component-local state are outside the guard oracle (`is_x`)
         ViewD::ForR(..) | ViewD::ForE(..) | ViewD::Scope(..) | ViewD::Eb(..) | ViewD::Res(..) => {}
-        ViewD::Sus(..) | ViewD::Tra(..) | ViewD::Aw(..) => {}
+        ViewD::Sus(..) | ViewD::Tra(..) | ViewD::Aw(..) | ViewD::Lw(..) => {}
         ViewD::Susp(e, a) => {
             out.push(Guard::Reads(reads_of(defs, e)));
             struct_guards(defs, env, a, out)
@@ -474,14 +486,14 @@ pub fn ref_render(defs: &[Def], env: &[i64], v: &ViewD, path: &[Guard], out: &mu
         }
         // implementation-only constructors are not covered by the untouched-nodes oracle
         ViewD::Susp(..) | ViewD::Errb(..) | ViewD::ForR(..) | ViewD::ForE(..) | ViewD::Scope(..) | ViewD::Eb(..) | ViewD::Res(..) => {}
-        ViewD::Sus(..) | ViewD::Tra(..) | ViewD::Aw(..) => {}
+        ViewD::Sus(..) | ViewD::Tra(..) | ViewD::Aw(..) | ViewD::Lw(..) => {}
     }
 }
 
 pub fn has_impl_only(v: &ViewD) -> bool {
     match v {
         ViewD::Susp(..) | ViewD::Errb(..) => true,
-        ViewD::Text(_) | ViewD::Unit | ViewD::DynText(_) | ViewD::For(..) | ViewD::Res(..) | ViewD::Aw(_) => false,
+        ViewD::Text(_) | ViewD::Unit | ViewD::DynText(_) | ViewD::For(..) | ViewD::Res(..) | ViewD::Aw(_) | ViewD::Lw(_) => false,
         ViewD::Elem(_, _, k) | ViewD::ForR(_, _, k) | ViewD::ForE(_, _, k) | ViewD::Scope(_, _, k) | ViewD::Eb(k) | ViewD::Sus(k) | ViewD::Tra(k) => has_impl_only(k),
         ViewD::Seq(a, b) | ViewD::Either(_, a, b) | ViewD::Show(_, a, b) => has_impl_only(a) || has_impl_only(b),
     }
@@ -491,7 +503,7 @@ pub fn has_impl_only(v: &ViewD) -> bool {
 pub fn is_x(v: &ViewD) -> bool {
     match v {
         ViewD::ForR(..) | ViewD::ForE(..) | ViewD::Scope(..) | ViewD::Eb(..) | ViewD::Res(..) => true,
-        ViewD::Sus(..) | ViewD::Tra(..) | ViewD::Aw(..) => true,
+        ViewD::Sus(..) | ViewD::Tra(..) | ViewD::Aw(..) | ViewD::Lw(..) => true,
         ViewD::Text(_) | ViewD::Unit | ViewD::DynText(_) | ViewD::For(..) => false,
         ViewD::Elem(_, _, k) | ViewD::Susp(_, k) | ViewD::Errb(_, k) => is_x(k),
         ViewD::Seq(a, b) | ViewD::Either(_, a, b) | ViewD::Show(_, a, b) => is_x(a) || is_x(b),
@@ -501,17 +513,52 @@ pub fn is_x(v: &ViewD) -> bool {
 /// the view has a `<Suspense>` / `<Transition>` (an "S view": observed at idle points only)
 pub fn is_s(v: &ViewD) -> bool {
     match v {
-        ViewD::Sus(..) | ViewD::Tra(..) | ViewD::Aw(..) => true,
+        ViewD::Sus(..) | ViewD::Tra(..) | ViewD::Aw(..) | ViewD::Lw(..) => true,
         ViewD::Text(_) | ViewD::Unit | ViewD::DynText(_) | ViewD::For(..) | ViewD::Res(..) => false,
         ViewD::Elem(_, _, k) | ViewD::Susp(_, k) | ViewD::Errb(_, k) | ViewD::ForR(_, _, k) | ViewD::ForE(_, _, k) | ViewD::Scope(_, _, k) | ViewD::Eb(k) => is_s(k),
         ViewD::Seq(a, b) | ViewD::Either(_, a, b) | ViewD::Show(_, a, b) => is_s(a) || is_s(b),
     }
 }
 
+/// the gates the live `lw` leaves select (for the signal values `env`)
+pub fn lw_gates(defs: &[Def], env: &[i64], v: &ViewD, key: i64, out: &mut Vec<usize>) {
+    let ev = |e: &Expr| eval_key(defs, env, e, key);
+    match v {
+        ViewD::Lw(e) => out.push(for_index(ev(e), 4)),
+        ViewD::Text(_) | ViewD::Unit | ViewD::DynText(_) | ViewD::For(..) | ViewD::Res(..) | ViewD::Aw(_) => {}
+        ViewD::Elem(_, _, k) | ViewD::Susp(_, k) | ViewD::Errb(_, k) | ViewD::Scope(_, _, k) | ViewD::Eb(k) | ViewD::Sus(k) | ViewD::Tra(k) => {
+            lw_gates(defs, env, k, key, out)
+        }
+        ViewD::Seq(a, b) => {
+            lw_gates(defs, env, a, key, out);
+            lw_gates(defs, env, b, key, out)
+        }
+        ViewD::Either(c, a, b) | ViewD::Show(c, a, b) => lw_gates(defs, env, if ev(c) != 0 { a } else { b }, 0, out),
+        ViewD::ForR(sel, lists, row) | ViewD::ForE(sel, lists, row) => {
+            for k in &lists[for_index(ev(sel), lists.len())] {
+                lw_gates(defs, env, row, *k as i64, out)
+            }
+        }
+    }
+}
+
+/// `eval_pure` with the key of the enclosing row
+pub fn eval_key(defs: &[Def], env: &[i64], e: &Expr, key: i64) -> i64 {
+    match e {
+        Expr::Key => key,
+        Expr::Lit(_) | Expr::Rd(_) | Expr::Loc(_) => eval_pure(defs, env, e),
+        Expr::Add(a, b) => eval_key(defs, env, a, key).wrapping_add(eval_key(defs, env, b, key)),
+        Expr::Mulc(k, a) => k.wrapping_mul(eval_key(defs, env, a, key)),
+        Expr::Ite(c, t, f) => {
+            if eval_key(defs, env, c, key) != 0 { eval_key(defs, env, t, key) } else { eval_key(defs, env, f, key) }
+        }
+    }
+}
+
 pub fn has_tra(v: &ViewD) -> bool {
     match v {
         ViewD::Tra(..) => true,
-        ViewD::Text(_) | ViewD::Unit | ViewD::DynText(_) | ViewD::For(..) | ViewD::Res(..) | ViewD::Aw(_) => false,
+        ViewD::Text(_) | ViewD::Unit | ViewD::DynText(_) | ViewD::For(..) | ViewD::Res(..) | ViewD::Aw(_) | ViewD::Lw(_) => false,
         ViewD::Elem(_, _, k) | ViewD::Susp(_, k) | ViewD::Errb(_, k) | ViewD::ForR(_, _, k) | ViewD::ForE(_, _, k) | ViewD::Scope(_, _, k) | ViewD::Eb(k) | ViewD::Sus(k) => has_tra(k),
         ViewD::Seq(a, b) | ViewD::Either(_, a, b) | ViewD::Show(_, a, b) => has_tra(a) || has_tra(b),
     }
